@@ -34,6 +34,7 @@ type HarnessSpec struct {
 	Require  []string       `json:"require"`  // cover points that must be reached
 	Bounds   string         `json:"bounds"`   // human-readable statement of the bound
 	TOpts    map[string]int `json:"topts"`    // engine options overriding Opts in the thorough tier
+	Solver   string         `json:"solver"`   // z3 (default), z3-new, cvc5
 }
 
 type CheckSpec struct {
@@ -131,6 +132,7 @@ func baseConfig(tier string, seed int64, opts map[string]int, params map[string]
 		MaxFanout:    get("maxfanout", 300),
 		MaxPaths:     int64(get("maxpaths", 0)),
 		ByteDomains:  get("bytedomains", 1) == 1,
+		Intervals:    get("intervals", 1) == 1 && os.Getenv("GOSYM_NOINTERVALS") == "",
 		TrackStores:  get("stores", 0) == 1,
 		PermuteMaps:  get("permute", 0) == 1,
 		PermuteRanges: get("permute_ranges", 2),
@@ -338,7 +340,7 @@ type harnessReport struct {
 	Truncated    bool              `json:"truncated,omitempty"`
 	Validated    int               `json:"native_replays_matching"`
 	Mismatches   []string          `json:"validation_mismatches,omitempty"`
-	StubSkipped  int               `json:"validation_skipped_stub_divergence,omitempty"`
+	StubSkipped  int64             `json:"paths_only_reachable_through_stub_over_approximation,omitempty"`
 	Violations   int               `json:"violations_replayed"`
 	Known        int               `json:"known_findings_matched"`
 	Unreproduced []string          `json:"engine_only_violations_not_reproduced,omitempty"`
@@ -485,6 +487,9 @@ func cmdCheck(args []string) {
 		}
 		params["seed"] = int(seed)
 		cfg := baseConfig(*tier, seed, opts, params)
+		if hs.Solver != "" && os.Getenv("GOSYM_SOLVER") == "" {
+			cfg.SolverKind = hs.Solver
+		}
 		hstart := time.Now()
 		ex := &interp.Explorer{Prog: prog, Fn: fn, Cfg: cfg}
 		if err := ex.Run(); err != nil {
@@ -500,7 +505,7 @@ func cmdCheck(args []string) {
 			SolverWallS: ex.SolverWall.Seconds(), LongestMs: float64(ex.SolverLongest.Microseconds()) / 1000,
 			Asserts: ex.Stats.Asserts, AssertsConcrete: ex.Stats.ConcreteAsserts, AssertsProved: ex.Stats.AssertProved, AssertsUnknown: ex.Stats.AssertUnknown,
 			Steps: ex.Stats.Steps, Cover: ex.Covers, Unencodable: ex.Unenc, BoundExceeded: ex.Bounds, Truncated: ex.Truncated,
-			funcs: ex.FuncsSeen,
+			funcs: ex.FuncsSeen, StubSkipped: ex.StubDiverged,
 		}
 		if len(ex.Unenc) > 0 || len(ex.Bounds) > 0 || ex.Truncated || ex.Stats.AssertUnknown > 0 || ex.Stats.BranchUnknown > 0 || ex.Stats.ConfirmBad > 0 {
 			incomplete = true
@@ -551,8 +556,6 @@ func cmdCheck(args []string) {
 				}
 				if okd {
 					rep.Validated++
-				} else if hasStub(s.Vector) {
-					rep.StubSkipped++
 				} else {
 					rep.Mismatches = append(rep.Mismatches, fmt.Sprintf("input {%s}: engine %s %v / native %s %v %s", vecString(s.Vector), s.Outcome, s.Digest, o.Result, o.Digest, o.Detail))
 				}
